@@ -1199,7 +1199,7 @@ func TestVerifC06Edns(t *testing.T) {
 		}
 		cfgCoq := fmt.Sprintf("(mk_cfg %s %s %s)", nsidCoq, cookieCoq, ecsCoq)
 		coq := fmt.Sprintf("CaseChain %s %s %s (%s) %s %s %d %s %d %d %d", vC06TrName[tr], cfgCoq, tab.table(), qCoq, vC06B(strict), dnCoq, clen, obsCoq, len(reply), oulen, oclen)
-		coq = fmt.Sprintf("CaseBytes [] %s (%s)", vC06Octets(vC06OptTail(obs, reply)), coq)
+		coq = fmt.Sprintf("CaseBytes [] 0 %s (%s)", vC06Octets(vC06OptTail(obs, reply)), coq)
 
 		k := "chain-" + strings.ToLower(vC06TrName[tr]) + "-"
 		if fromCorpus {
